@@ -11,7 +11,7 @@ from __future__ import annotations
 from fractions import Fraction
 from typing import Any, Dict, List
 
-from .. import drive_api, gen, model
+from .. import drive_api, e2e, gen, model
 from ..engine_common import engine_case, history_classes
 from ..runner import Outcome
 
@@ -35,7 +35,7 @@ _MONITOR: Dict[str, Any] = {"installed": False, "hits": []}
 
 
 def budget(tier: str) -> Dict[str, Any]:
-    return {"shards": 16, "examples": 1500 if tier == "quick" else 20000}
+    return {"shards": 16, "examples": 1500 if tier == "quick" else 20000, "examples2": 8 if tier == "quick" else 150}
 
 
 def strategy(tier: str) -> Any:
@@ -69,7 +69,7 @@ def _terminates(frac: Fraction) -> bool:
     return den == 1
 
 
-def arithmetic_violations(out: Outcome, txs: List[model.Tx], dump: Dict[str, Any]) -> None:
+def arithmetic_violations(out: Outcome, txs: List[model.Tx], dump: Dict[str, Any], tol: Fraction = REL) -> None:
     by_row = {t.row: t for t in txs}
     per_event_p: Dict[int, Fraction] = {}
     per_event_a: Dict[int, Fraction] = {}
@@ -106,7 +106,7 @@ def arithmetic_violations(out: Outcome, txs: List[model.Tx], dump: Dict[str, Any
                 rel = Fraction(0) if ok else Fraction(1)
             else:
                 rel = abs(got - exp) / ref
-                ok = rel <= REL
+                ok = rel <= tol
             max_rel = max(max_rel, rel)
             if not ok:
                 lot_desc = "none" if fraction["lot"] is None else f"row {fraction['lot']}"
@@ -123,7 +123,7 @@ def arithmetic_violations(out: Outcome, txs: List[model.Tx], dump: Dict[str, Any
             exp = event.taxable_fiat
             got = per_event_p[row]
             ref = abs(exp)
-            if (ref == 0 and got != 0) or (ref != 0 and abs(got - exp) / ref > REL):
+            if (ref == 0 and got != 0) or (ref != 0 and abs(got - exp) / ref > tol):
                 out.fail("event_pieces_do_not_add_up", f"event row {row}: proceeds of its fractions add to {got}, taxable fiat value is {exp}")
                 return
     for row, total_a in per_lot_a.items():
@@ -132,13 +132,29 @@ def arithmetic_violations(out: Outcome, txs: List[model.Tx], dump: Dict[str, Any
             out.classes.add("lot_fully_consumed")
             exp = lot.lot_cost
             got = per_lot_b[row]
-            if abs(got - exp) / abs(exp) > REL:
+            if abs(got - exp) / abs(exp) > tol:
                 out.fail("lot_pieces_do_not_add_up", f"fully consumed lot row {row}: cost bases of its fractions add to {got}, its cost is {exp}")
                 return
     out.metrics["max_rel_error"] = max_rel
 
 
+E2E_HIST = gen.GenCfg(min_steps=4, max_steps=14, max_exchanges=2, max_holders=2, bulk_prob=0.03)
+E2E_REL = Fraction(1, 10**13)  # the gain cell is a double; proceeds and cost basis are exact decimals inside the HYPERLINK formulas
+
+
+def strategy2(tier: str) -> Any:
+    """End-to-end tier (rp2v/e2e.py): files (incl. crypto-fee acquisitions, which only exist on the parser's path) through the
+    console entry point; proceeds / cost basis / gain read back from rp2_full_report.ods against the generated rows."""
+    return e2e.file_strategy(E2E_HIST, countries=("us", "us", "generic", "ie", "jp"))
+
+
+def minimize(case: Dict[str, Any], clause: str) -> Dict[str, Any]:
+    return e2e.minimize(case, clause, evaluate) if case.get("e2e") else case
+
+
 def evaluate(case: Dict[str, Any]) -> Outcome:
+    if case.get("e2e"):
+        return e2e.evaluate_assets(case, "c04e", lambda out, asset, txs, dump, schedule: arithmetic_violations(out, txs, dump, tol=E2E_REL))
     install_float_monitor()
     out = Outcome()
     txs = model.make_txs(case["rows"])
